@@ -10,7 +10,7 @@ sys.path.insert(0, os.path.join(os.path.dirname(os.path.dirname(os.path.abspath(
 import api
 import validate
 from domains import FPDomain, RealDomain, f2bits
-from engine import E2, model_value, show
+from engine import E2, model_value, show, canon_fp
 from interp import Unsupported, PathLimit, Interp
 
 LEVEL = "proof"
@@ -121,7 +121,9 @@ def check_op(e, op, ty):
     if len(want) != len(nums):
         goal = z3.BoolVal(False)
     else:
-        goal = z3.And(*[z3.Or(z3.fpEQ(g.t, w), z3.And(z3.fpIsNaN(g.t), z3.fpIsNaN(w))) for g, w in zip(nums, want)])
+        cache = {}
+        pairs = [(canon_fp(g.t, cache), canon_fp(w, cache)) for g, w in zip(nums, want)]
+        goal = z3.And(*[z3.Or(z3.fpEQ(g, w), z3.And(z3.fpIsNaN(g), z3.fpIsNaN(w))) for g, w in pairs])
     fin = [z3.And(z3.Not(z3.fpIsNaN(t)), z3.Not(z3.fpIsInf(t))) for t in syms]
 
     def replay(model, ob):
@@ -134,6 +136,17 @@ def check_op(e, op, ty):
             "addref": "&f + &g: every number is the correctly rounded c1+c2", "sub": "every number of f-g is the correctly rounded c1-c2",
             "subref": "&f - &g: every number is the correctly rounded c1-c2",
             "translate": "translate(v) adds v (correctly rounded) to the additive constant and changes nothing else"}[op]
+    if s is not None and op in ("mul", "mulassign"):
+        # the special scalars the property names (0, -1, and 1): same claim with the scalar fixed -- cheap even when a
+        # value-dependent fast path makes the fully symbolic query hard for the bit-blaster
+        for sv in (0.0, 1.0, -1.0):
+            cst = z3.FPVal(sv, F64)
+            g2 = z3.substitute(goal, (s, cst))
+            e.prove("%s[s=%r]" % (label, sv), "%s on %s with the scalar fixed to %r, all finite coefficients: every number is the correctly "
+                    "rounded product" % (op, ty, sv), fin[:-1], g2, dom_name="fp", functions=funcs,
+                    witness_terms={nm: t for nm, t in list(zip(names, syms))[:3]}, role="operator:%s" % op,
+                    replay=(lambda model, ob, sv=sv: replay_op(e, op, ty, [0.0 if model_value(model, t) is None else float(model_value(model, t))
+                                                                          for t in syms[:-1]] + [sv], ob)))
     e.prove(label, "%s on %s, for ALL finite binary64 inputs (bit-precise, results compared with fp.eq): %s" % (op, ty, desc),
             fin, goal, dom_name="fp", functions=funcs,
             witness_terms={nm: t for nm, t in list(zip(names, syms))[:4]}, role="operator:%s" % op, replay=replay)
